@@ -304,6 +304,24 @@ def rule_noexcept(ctx, rule, scope, what, minimum=0):
         n += 1
         reach = cg.reachable([f.id])
         hit = sorted(r for r in reach if r in raisers)
+        # inside a template: an operation on an object whose type the user supplies (`++it_`, `it_ != other.it_`, `*it_` with it_ of a
+        # template parameter's type) is a call of the user's code - it may throw whatever it likes
+        userop = None
+        if f.is_pattern and not hit:
+            for _, _, e in f.roots():
+                for y in walk(e["expr"]):
+                    if isinstance(y, dict) and y.get("k") in ("un", "bin", "call", "subscript") and ((y.get("type") or "") == "<dependent type>" or y.get("dep")) \
+                            and not (y.get("k") == "call" and (y.get("name") or "") in ("std::move", "std::forward", "std::addressof")):
+                        userop = y
+                        break
+                if userop is not None:
+                    break
+        if userop is not None:
+            ctx.bad(rule, f, "noexcept-reaches-raise:%s" % short(f.qual),
+                    "%s is declared noexcept but applies `%s` to an object of a type the caller supplies (line %s): an exception thrown by that operation - a lazily "
+                    "parsing iterator that meets bad input, an element whose comparison throws - cannot leave the function, std::terminate ends the process instead of the "
+                    "caller seeing the elements reached so far and then the exception" % (short(f.qual), fmt(userop)[:50], userop.get("ln")), (f, userop.get("ln")))
+            continue
         if hit:
             g = prog.fn(hit[0])
             ctx.bad(rule, f, "noexcept-reaches-raise:%s" % short(f.qual),
